@@ -450,10 +450,7 @@ func setMapField(field reflect.Value, fieldType reflect.Type, isPtr bool, mapArr
 	items := mapArr.Items()
 	length := int(end - start)
 
-	if isPtr {
-		fieldType = fieldType.Elem()
-	}
-
+	// Note: fieldType is already dereferenced by the caller (setFieldFromArrow)
 	m := reflect.MakeMapWithSize(fieldType, length)
 	for j := 0; j < length; j++ {
 		k := reflect.New(fieldType.Key()).Elem()
